@@ -260,65 +260,65 @@ EXTRA = {
            "parse site; the names handler (startElement/characters/endElement/update_map/find_matching_names) is decided by " + MODEL + ": "
            "residue alias copies every atom as the same object, patterns match whole names only, $group substitution, atom aliases only for "
            "existing atoms, no state leaking between blocks. Protonation variants named by the input file (CYM, HIE, ...) are cells of the "
-           "state-name table.",
+           "state-name table. With --ligand only atoms that received parameters are printed (ligand block on a model complex); the bundled tables are looked up in the package's data directory whatever files the working directory holds (lookup evaluated on a model file system).",
     "C02": "Also: the integrality guard comes after every parameter assignment and keeps a bounded tolerance; patches other than PEPTIDE act "
            "on a private copy; no list is modified while iterated in the terminus code; one TER record means two chains; input-named "
-           "variants get their own charge obligations; helper methods factored out of assign_termini are interpreted in place.",
+           "variants get their own charge obligations; helper methods factored out of assign_termini are interpreted in place. set_termini is decided on model chains holding several terminated molecules under one chain identifier (every residue in exactly one chain, one terminus pair per molecule); chain shapes include an amide cap followed by hetero groups and an unknown residue inside a cyclic peptide.",
     "C03": "Also shares the ingestion rules of C07 (identity, first alternate location, every record appended, reader stops only at end of "
            "file, pending residue flushed, only further models left out), patch isolation, the ligand block on a model complex (every "
            "ligand atom printed once, lists partition) and 'hydrogens are stripped only from residue classes that get them rebuilt'; "
            "loop exits of add_hydrogens are decided on canonical guard sets (closed reasons or warned); the conditions under which "
            "optimize_hydrogens finalises an object and opens a network are compared as truth tables, whatever the nesting of the tests; "
-           "Biomolecule.__init__ is decided by " + MODEL + " on six record lists.",
+           "Biomolecule.__init__ is decided by " + MODEL + " on six record lists. Chains holding several molecules are split without losing a residue (model chains); the warnings that report a deletion or a placement failure reach the user (io.DuplicateFilter evaluated on model records, 25 repetitions).",
     "C04": "The selection procedure is evaluated on the topology model whatever its code shape and must be history free (a memo is reset "
            "by every membership mutator); Flip caches exactly the atoms its rotation moves at every chain position; no statement turns "
-           "args.debump/args.opt on.",
+           "args.debump/args.opt on. debump_residue is evaluated on a model residue with three torsions in a neighbourhood that is never cured: every rotation moves the far side of the torsion being set; a stored coordinate that is rounded is not the rotated point (symbolic round stays uninterpreted).",
     "C05": "Also: the C(i-1)/N(i+1) frame pointers survive update_bonds only across a bond within the limit on every path (free tests "
            "explored both ways), the limit separates bonded from 1-3 template distances; completing an XH3 group reads the position of "
            "every hydrogen already present. Water.finalize is decided by " + MODEL + " on eight model waters (every combination of H1/LP1/LP2 "
            "present) under twelve scripted neighbourhoods, with positions as abstract points: both hydrogens are built and no two atoms "
            "of the water share a point on any path.",
     "C06": "Also: pKa and pH reach the comparison unmodified; rows of different titratable groups never share a key of the pKa table; "
-           "patch isolation.",
+           "patch isolation. The 'unsupported' warning must pass the duplicate-message filter on every repetition (filter evaluated on model records); nobody writes the pH option after parsing.",
     "C07": "Also: every ATOM/HETATM record read is appended to a residue; the record type is decided by the record-name columns; the "
            "name tested for 'already present' is the name the atom is filed under. The record classes, read_atom, drop_water and "
-           "Biomolecule.__init__ are decided by " + MODEL + " on model lines and record lists.",
+           "Biomolecule.__init__ are decided by " + MODEL + " on model lines and record lists. set_termini on model chains with hidden molecules keeps every residue in exactly one chain.",
     "C08": "Also: every print site forwards --keep-chain; pdb2pqr's own reader (read_pqr/from_pqr_line) is decided by " + MODEL + " on one "
            "line per layout the writer emits (lines formatted by the writer's own code); the precision of each numeric field is read from "
-           "the path layouts, however the line is assembled (concatenation, join, helper).",
+           "the path layouts, however the line is assembled (concatenation, join, helper). R7: the writer is evaluated on eleven model atoms whose fields fit the format and the line is read back by an independent reader (fixed wwPDB columns; blank-separated tokens for --whitespace) to the stated precision; the whole file print_pqr writes (both input formats, both spacings, atoms of a residue called TER) is read back by read_pqr.",
     "C09": "Also: waters are removed iff --drop-water; numeric fields occupy one fixed column span on all formatter paths; a formatting "
            "flag may only select strings (a flag-controlled local must be a string being built); --neutraln/--neutralc are decided by "
            "evaluating assign_termini on every chain shape with the flag off and on; check_options is decided by " + MODEL + " on 45 "
            "namespaces (option x force-field spelling x pH).",
     "C10": "Also: every atom_site row is visited; `a or b` is forked like a conditional expression by the layout engine; models are handed "
            "on in order of first appearance (count_models on model rows); get_molecule is decided by " + MODEL + " on 13 paths (suffix "
-           "in any letter case, suffix-like directory and stem) with and without reader errors.",
-    "C11": "Also: mutations through a local alias of a shared object; a list extended by a set; positive controls for both.",
+           "in any letter case, suffix-like directory and stem) with and without reader errors. count_models is evaluated on a model of the parser's category for three files read in one process with different item orders.",
+    "C11": "Also: mutations through a local alias of a shared object; a list extended by a set; positive controls for both. Objects created by a call at import time live as long as the process: an ambient source there, or a method called on such an object at run time, is reported (loggers and pure constructors allow-listed by name); the lookup of bundled tables ignores the working directory (model file system).",
     "C12": "Also: the integrality guard is a must-pass after every parameter assignment; patch isolation; calls inside the output block "
            "are judged by their resolved raise sets; the 'remember the failure, raise later' handler idiom is recognised structurally. "
            "Which inputs are too incomplete to repair is not decided (seed C12-c).",
     "C13": "Also: update_ss_bridges is decided by " + MODEL + " on a structure with a bridge across chains, a partner the input labels "
            "CYX, free/SG-less/thiolate cysteines, a pair just beyond the limit and bridged pairs straddling a whole grid cell of every "
            "spacing below the limit along each axis, in two residue orders; bridged cells are full and "
-           "neutral at every chain position in every force field that defines them; neighbour-query variants need cell size >= limit.",
+           "neutral at every chain position in every force field that defines them; neighbour-query variants need cell size >= limit. After bridging, CYS.set_state is evaluated on the model cysteines: a bridged partner is looked up as CYX whatever the input label.",
     "C14": "Also: add_cell/remove_cell/get_near_cells are decided by " + MODEL + " on 72 atoms around cell boundaries, zero and far out, "
            "for every size in use, before and after 25 bracketed moves; every fixed cutoff applied to query results is at most the cell "
-           "size; movers defined on the cell map itself are in the typestate scope.",
+           "size; movers defined on the cell map itself are in the typestate scope. The model atoms are filed through assign_cells with residues of every kind (amino acid, water, nucleotide, ligand, unknown hetero group) and also moved inside their cell twice in a row, including atoms alone in their cell.",
     "C15": "R3/R4 are decided by symbolic evaluation: qtrfit on two symbolic point pairs (Horn identity on the matrix actually handed to "
            "the diagonaliser; the eigenvector reaches q2mat unmodified on every path), set_dihedral_angle and rotate_tetrahedral on atoms "
            "with symbolic coordinates (axis, origin, angle, near side fixed, cached torsion re-measured after the move). dihedral()'s "
-           "snap window folds to less than 0.05 degree. The Jacobi sweep cap is not decided.",
+           "snap window folds to less than 0.05 degree. The Jacobi sweep cap is not decided. R7: effect analysis of quatfit.py - the functions the pipeline calls modify none of the point lists they are given (directly, through a view, or through a callee). R8 lists the part of the torsion table R4 presupposes (no rotated bond in a ring, whole far side rotated).",
     "C16": "Also: per-cycle updates from start-of-cycle charges only; first of equivalent atoms; the ligand block on a model complex (a "
            "ligand atom also known to the force field, a water with ligand-like hydrogen names, an ion after the ligand): each ligand "
            "atom printed once with the MOL2 values, nothing else touched; hydrogens are stripped only where they are rebuilt. Formal "
            "charges and their sum are decided by " + MODEL + " on ethanol, acetate and methyl phosphate in three bond listings; "
-           "assign_radius on five table probes (type hit, element fallback, secondary table, miss raises).",
+           "assign_radius on five table probes (type hit, element fallback, secondary table, miss raises). R10: the residue constructors are evaluated on model records: atoms of amino acids and nucleotides are typed ATOM whatever the input record type (the ligand block relies on it), an atom name listed twice is held once.",
     "C17": "Running extrema decided semantically; Psize (parse_lines .. __str__) is decided by " + MODEL + " on a one-atom file, spread atoms "
            "and a system above the memory ceiling: extrema, charge, counts, enclosure, multigrid-legal counts, the memory figure of the "
-           "report and the per-processor grid.",
+           "report and the per-processor grid. R8: io.dump_apbs and inputgen.Input/Elec are evaluated on a file-system model holding the PQR file print_pqr wrote (read(n) hands out short blocks): for every solution method the text names that file and states the grid, lengths and processor grid the sizing object computed.",
     "C18": "Chunk index emission is interpreted for any loop shape; reader state fresh per call; read_pqr + read_dx + write_cube are decided "
            "by " + MODEL + ": header, atom block (ATOM and HETATM), value count/order/precision over magnitude classes, second read equals "
-           "first.",
+           "first. The model grid is sheared and rotated (non-symmetric delta matrix); a second conversion has counts wider than the usual columns (1234/100000 points, 12345 atoms).",
 }
 for _k, _v in EXTRA.items():
     META[_k]["text"] += " " + _v
